@@ -157,13 +157,11 @@ func (c *Cache) Watch(
 		return err
 	}
 
-	// Remember Owner watching this GVK
+	// Remember Owner watching this GVK,
+	// but only after the informer is running with all event handlers attached.
+	// Registering the owner first would leave a dangling reference behind when starting the informer fails:
+	// a retried Watch would then return early and never start the informer (or attach handlers) again.
 	_, informerExists := c.informerReferences[gvk]
-	if !informerExists {
-		c.informerReferences[gvk] = map[OwnerReference]struct{}{}
-	}
-	c.informerReferences[gvk][ownerRef] = struct{}{}
-
 	if !informerExists {
 		log.Info("adding new watcher",
 			"ownerGV", ownerRef.GroupKind,
@@ -173,14 +171,20 @@ func (c *Cache) Watch(
 		// Create/Get Informer
 		informer, _, err := c.informerMap.Get(ctx, gvk, uns)
 		if err != nil {
+			// The informer may have been created but failed to sync, shut it down again.
+			_ = c.informerMap.Delete(ctx, gvk)
 			return fmt.Errorf("getting informer from InformerMap: %w", err)
 		}
 
 		// ensure to add all event handlers to the new informer
 		if err := c.cacheSource.handleNewInformer(informer); err != nil {
+			_ = c.informerMap.Delete(ctx, gvk)
 			return fmt.Errorf("registering EventHandlers for %v: %w", gvk, err)
 		}
+
+		c.informerReferences[gvk] = map[OwnerReference]struct{}{}
 	}
+	c.informerReferences[gvk][ownerRef] = struct{}{}
 
 	return nil
 }
